@@ -468,6 +468,9 @@ static void run_stack(const char* subj, Rng& g, long nops, std::size_t block, Ma
                 std::size_t mn = traits::max_node_size(s);
                 if (mn != s.next_capacity() || traits::max_array_size(s) != s.next_capacity())
                     O->fail("C18 memory_stack: traits maxima differ from next_capacity()");
+                static int above_probes = 0; // (every rejected request of this kind makes a growing stack take - and double - a block)
+                if (mn < (std::size_t(1) << 16) && above_probes++ < 2)
+                {
                 {
                     void*       p = nullptr;
                     std::string r = guarded([&] { p = traits::allocate_node(s, mn + 1, 1); });
@@ -484,6 +487,7 @@ static void run_stack(const char* subj, Rng& g, long nops, std::size_t block, Ma
                     emit(fmt("%s alloc_array %zu 4 1", subj, cnt), r.empty() ? fmt("ok %zu", R->off(p)) : r, stack_state(s));
                 }
                 check_net("after requests above the reported maxima");
+                }
             }
         }
         else if (!std::is_same<typename Stack::allocator_type, static_block_allocator>::value && other < 0 && g.chance(50))
